@@ -49,6 +49,22 @@ package multi
 //@   ensures !has((*a).adjudicators, key(lbBackend(*l), lidKey(lbLedger(*l)))) ==> result != nil
 //@   callsite fn:f : has((*a).adjudicators, key(lbBackend(*l), lidKey(lbLedger(*l)))) && arg0 == (*a).adjudicators[key(lbBackend(*l), lidKey(lbLedger(*l)))]
 
+// The collecting side of dispatch: it takes one result per ledger from the channel and returns nil only if every one of them was
+// nil. received()/receivedNonNil(): ghost counters of the channel receives of this call and of the non-nil errors among them (the
+// received values themselves are arbitrary: which goroutine delivers what, and in which order, is not modelled). The spawned calls
+// are checked at the spawn point (closure dispatch$1, above).
+//@ func (*Adjudicator).dispatch$1
+//@   trusted
+//@   modifies *
+//@ func (*Adjudicator).dispatch
+//@   requires a != nil && f != nil && a.adjudicators != nil && forall i int :: 0 <= i && i < len(assetIds) ==> assetIds[i] != nil
+//@   modifies *
+//@   ensures result == nil ==> received() == old(received()) + len(assetIds) && receivedNonNil() == old(receivedNonNil())
+//@   loop 1
+//@     invariant received() == old(received()) && receivedNonNil() == old(receivedNonNil()) && n == len(assetIds)
+//@   loop 2
+//@     invariant 0 <= $i && $i < n && received() == old(received()) + $i && receivedNonNil() == old(receivedNonNil()) && n == len(assetIds)
+
 // The per-ledger calls forward exactly the request of the multi-ledger call.
 //@ func (*Adjudicator).Register$1
 //@   requires la != nil
@@ -86,11 +102,23 @@ package multi
 // fundedOK(ids): the concurrent funding of these ledgers reported no error (result of fundLedgers; its fork-join body - one
 // goroutine per ledger, one result per goroutine collected from a channel - is verified only in its per-ledger closure).
 //@ ghost func fundedOK(ids []LedgerBackendID) bool
+// The collecting side is verified like the one of dispatch: one result per ledger is taken from the channel, nil only if all were nil.
+// That this is the same as "the funding of these ledgers reported no error" (fundedOK) rests on each goroutine sending exactly its
+// call's result once: assumed (trustedensures). Frame: the function itself writes only its own channel; what the spawned per-ledger
+// funders write is not part of the sequential view (goroutine effects are not modelled, see DESIGN.md).
 //@ func fundLedgers
-//@   trusted
-//@   ensures result == nil <==> fundedOK(assetIDs)
+//@   requires funders != nil && (forall i int :: 0 <= i && i < len(assetIDs) ==> assetIDs[i] != nil) && forall b uint32, s string :: has(funders, key(b, s)) ==> funders[key(b, s)] != nil
+//@   modifies ghost("recvcount"), ghost("recvnonnil")
+//@   ensures result == nil ==> received() == old(received()) + len(assetIDs) && receivedNonNil() == old(receivedNonNil())
+//@   trustedensures result == nil <==> fundedOK(assetIDs)
+//@   loop 1
+//@     modifies fresh
+//@     invariant received() == old(received()) && receivedNonNil() == old(receivedNonNil()) && n == len(assetIDs)
+//@   loop 2
+//@     invariant 0 <= $i && $i < n && received() == old(received()) + $i && receivedNonNil() == old(receivedNonNil()) && n == len(assetIDs)
 //@ func (*Funder).Fund
 //@   requires f != nil && ctx != nil && request.Params != nil && request.State != nil && forall i int :: 0 <= i && i < len(request.State.Assets) ==> request.State.Assets[i] != nil
+//@   requires f.funders != nil && forall b uint32, s string :: has(f.funders, key(b, s)) ==> f.funders[key(b, s)] != nil
 //@   modifies *
 //@   callsite fundLedgers : funders == f.funders && (assetIDs == nonEgoisticLedgers || (assetIDs == egoisticLedgers && fundedOK(nonEgoisticLedgers)))
 //@   ensures result == nil ==> exists e []LedgerBackendID, n []LedgerBackendID :: fundedOK(e) && fundedOK(n)
@@ -99,6 +127,8 @@ package multi
 //@     invariant (egoisticLedgers != nil ==> fresh(arr(egoisticLedgers))) && (nonEgoisticLedgers != nil ==> fresh(arr(nonEgoisticLedgers))) &&
 //@       (egoisticLedgers != nil && nonEgoisticLedgers != nil ==> arr(egoisticLedgers) != arr(nonEgoisticLedgers)) &&
 //@       (ledgerIDs != nil ==> arr(egoisticLedgers) != arr(ledgerIDs) && arr(nonEgoisticLedgers) != arr(ledgerIDs))
+//@     invariant (forall k int :: 0 <= k && k < len(ledgerIDs) ==> ledgerIDs[k] != nil) && (forall k int :: 0 <= k && k < len(egoisticLedgers) ==> egoisticLedgers[k] != nil) &&
+//@       (forall k int :: 0 <= k && k < len(nonEgoisticLedgers) ==> nonEgoisticLedgers[k] != nil)
 //@     invariant len(egoisticLedgers) + len(nonEgoisticLedgers) == $i && len(egoisticLedgers) <= 1 &&
 //@       (len(egoisticLedgers) == 1 ==> f.egoistic && f.egoisticIndex < $i && egoisticLedgers[0] == ledgerIDs[f.egoisticIndex]) &&
 //@       (f.egoistic && 0 <= f.egoisticIndex && f.egoisticIndex < $i ==> len(egoisticLedgers) == 1)
